@@ -12,7 +12,8 @@ Inductive c19case :=
 | CDecInt (s : bytes) (expect : res Z)
 | CJDump (v : pv) (expect : list N)            (* json.dumps(v, ensure_ascii=True, separators=(",",":")) *)
 | CJLoad (s : list N) (expect : option pv)     (* json.loads(text): Some v / None = ValueError *)
-| CJB64 (h : pv) (expect : list N).            (* util.json_b64encode(h) *)
+| CJB64 (h : pv) (expect : list N)             (* util.json_b64encode(h) *)
+| CJB64D (seg : list N) (expect : option pv).  (* util.json_b64decode(seg): Some v / None = ValueError *)
 
 (* structural equality of float-free values (order-sensitive for dicts: the
    harness passes dicts in Python's insertion order) *)
@@ -55,6 +56,13 @@ Definition c19_check (c : c19case) : bool :=
       | _, _ => false
       end
   | CJB64 h e => beqb (json_b64encode h) e
+  | CJB64D seg e =>
+      match json_b64decode seg, e with
+      | Ok (POk v), Some w => pv_same v w
+      | Ok PErr, None => true
+      | Err EValue, None => true
+      | _, _ => false
+      end
   end.
 
 (* integers are shown as (sign, big-endian octets): printing huge decimal
@@ -73,4 +81,5 @@ Definition c19_show (c : c19case) : c19out :=
   | CJDump v _ => OB (Ok (json_print v))
   | CJLoad s _ => OJ (json_loads s)
   | CJB64 h _ => OB (Ok (json_b64encode h))
+  | CJB64D seg _ => match json_b64decode seg with Ok r => OJ r | Err _ => OJ PErr end
   end.
